@@ -28,13 +28,32 @@ Four independent pieces:
   vector); knows nothing of the Lean model nor of the code under test; counts
   the simulation registers the node needs (merge classes of the live qubits).
 * text-subroutine helpers (`sub_msg`, `epr_create_text`, `epr_recv_text`).
+* non-termination guards (netqasm's `Executor._execute_commands` has no step bound and runs in this process):
+  `Runner` counts the instructions each node's executor starts (`Executor._execute_command`, wrapped per
+  instance) and makes instruction number `insn_limit`+1 of one message raise `InstructionLimit` -- an ordinary
+  exception, so netqasm's own error path ends the subroutine (ErrorMessage, MsgDone) and the node stays usable;
+  a wall-clock guard (`signal.setitimer`, `WallClockAbort`, a BaseException) around feed + settle is the second
+  line of defence for loops that never start an instruction.  `Runner.send` reports either in `rec["aborted"]`;
+  `judge_abort` turns it into the verdict (the reference, given the same outcomes, stopped long ago -> violation
+  `nonterminating-subroutine`; the reference is still running too -> `ProgramDiverges`, the PROGRAM does not end).
 """
+import signal
+import threading
+import time
+
 import numpy as np
 
 from . import simnet as S
 from . import stabutil
 
 GROUP = "RCQM"
+INSN_LIMIT = 10000      # instructions one message may start on one node's executor; the subroutines C09 / C11
+#                         generate execute <= 186 (99.9%: < 150) -- measured over 23000 of them; a purely classical
+#                         endless loop reaches the limit in 0.1 s, one made of qalloc/init/qfree in ~13 s
+SHRINK_INSN_FLOOR = 2000  # shrinking candidates get min(INSN_LIMIT, max(this, 50 x what the reference needed))
+WALL_LIMIT = 20.0       # wall-clock seconds one message may take (feed + settle); normal: a few milliseconds
+NONTERM_KEY = "nonterminating-subroutine"
+NONTERM_MARGIN = 2      # verdict only if the real executor ran at least this many times the reference's instructions
 G1 = {"x": "X", "y": "Y", "z": "Z", "h": "H", "k": "K", "s": "S", "t": "T"}
 G1_METHOD = {"apply_X": "X", "apply_Y": "Y", "apply_Z": "Z", "apply_H": "H", "apply_K": "K", "apply_S": "S",
              "apply_T": "T", "apply_rotation": "Rot"}
@@ -227,15 +246,75 @@ def _or_dash(xs):
 # the real code, instrumented from outside
 # --------------------------------------------------------------------------
 
+class InstructionLimit(Exception):
+    """raised by the harness INSIDE the executor under test (in place of the instruction it was about to start)
+    when one message has started more than `Runner.insn_limit` instructions: netqasm's `_execute_commands` treats
+    it like any failing instruction (logs, ErrorMessage, leaves the loop)"""
+
+
+class WallClockAbort(BaseException):
+    """raised from the SIGALRM handler while `Runner.send` drives the real code: not an `Exception`, so the
+    `except Exception` of netqasm's instruction loop does not swallow it"""
+
+
+class ProgramDiverges(Exception):
+    """the real executor was stopped by a guard AND the reference interpreter, given the same outcomes, is still
+    running after as many instructions: the program itself does not terminate (a shrinking candidate that lost
+    its loop counter, ...); no verdict about the code under test"""
+
+
+class _WallGuard:
+    """`with _WallGuard(seconds) as g:` -- SIGALRM after `seconds` of wall-clock time (and every second after
+    that, should something swallow the first) raises WallClockAbort in the main thread; `g.fired` tells whether it
+    went off.  The previous handler and a previously armed timer are restored on exit.  Once it has gone off, ANY
+    exception leaving the block is swallowed (the asynchronous exception lands anywhere, e.g. inside PB's
+    serialiser, and comes out as something else).  No-op outside the main thread or with seconds=None."""
+
+    def __init__(self, seconds):
+        self.seconds, self.fired, self.armed, self.closing = seconds, 0, False, False
+
+    def _handler(self, signum, frame):
+        if self.closing:
+            return
+        self.fired += 1
+        raise WallClockAbort("more than %.0f s of wall-clock time in one message" % self.seconds)
+
+    def __enter__(self):
+        if self.seconds and threading.current_thread() is threading.main_thread():
+            self.t0 = time.monotonic()
+            self.old_handler = signal.signal(signal.SIGALRM, self._handler)
+            self.old_timer = signal.setitimer(signal.ITIMER_REAL, self.seconds, 1.0)
+            self.armed = True
+        return self
+
+    def __exit__(self, et, ev, tb):
+        self.closing = True
+        if self.armed:
+            signal.setitimer(signal.ITIMER_REAL, 0)
+            signal.signal(signal.SIGALRM, self.old_handler if self.old_handler is not None else signal.SIG_DFL)
+            delay, interval = self.old_timer
+            if delay:
+                signal.setitimer(signal.ITIMER_REAL, max(delay - (time.monotonic() - self.t0), 0.001), interval)
+            self.armed = False
+        return et is not None and (self.fired > 0 or issubclass(et, WallClockAbort))
+
+
 class Runner:
     """One NqNet + one host connection per node.  `send(node, kind, ...)` feeds one message and returns a
     record dict {node, kind, replies, ops, outs, sends, infos, state, quiescent, errors}; `lines[node]` collects
     (driver input line, expected driver output line, case description) in order."""
 
-    def __init__(self, names, cap, rng, caps=None, max_regs=None):
+    def __init__(self, names, cap, rng, caps=None, max_regs=None, insn_limit=INSN_LIMIT, wall_limit=WALL_LIMIT):
         """max_regs: register limit of every node (None = simnet's default, far above any capacity used here).
         The Lean model's node has a qubit capacity only; see `_tie_line` for what the driver is told when a
-        request is refused by the REGISTER limit."""
+        request is refused by the REGISTER limit.
+        insn_limit / wall_limit: the non-termination guards of `send` (None = off)."""
+        self.insn_limit, self.wall_limit = insn_limit, wall_limit
+        self.insns = {n: 0 for n in names}         # instructions started by the node's executor during this message
+        self.limit_hit = {}                        # node -> instruction count at which InstructionLimit was raised
+        self.dead = False                          # a wall-clock abort left the network in an unknown state
+        self.max_insns = 0                         # most instructions any message started on any node so far
+        self.max_ref_insns = 0                     # for the caller: most instructions ITS reference needed for a message
         if max_regs is None:
             self.nq = S.NqNet(list(names), max_qubits=cap, rng=rng)
         else:
@@ -333,6 +412,16 @@ class Runner:
                 me.rec[_n]["infos"].append([e.value if isinstance(e, enum.Enum) else e for e in response])
                 return _o(epr_cmd_data=epr_cmd_data, response=response, pair_index=pair_index)
             ex._store_ent_info = store
+            orig_cmd = ex._execute_command
+
+            def execute_command(subroutine_id, command, _o=orig_cmd, _n=n):
+                # netqasm's instruction loop calls `self._execute_command(...)` once per instruction executed
+                k = me.insns[_n] = me.insns[_n] + 1
+                if me.insn_limit is not None and k > me.insn_limit:
+                    me.limit_hit[_n] = k - 1
+                    raise InstructionLimit("the harness stopped the subroutine: %d instructions executed" % (k - 1))
+                return _o(subroutine_id, command)
+            ex._execute_command = execute_command     # instance attribute, found by `self._execute_command(...)`
 
     def _pre(self, obj, name, a, k):
         node, loc = self._where(obj)
@@ -474,15 +563,40 @@ class Runner:
             prog = decode_sub(msg).instructions
         else:
             raise ValueError(kind)
+        if self.dead:
+            raise RuntimeError("this Runner was abandoned after a wall-clock abort")
         for n in self.names:
             self.rec[n] = self._blank()
+            self.insns[n] = 0
         self.reg_hits = {}
+        self.limit_hit = {}
         if kind == "init":
             self.app[node] = app
         p, t = self.host[node]
-        nq.feed(p, S.frame(self.msg_id[node], bytes(msg)))
+        quiescent = False
+        with _WallGuard(self.wall_limit) as guard:
+            nq.feed(p, S.frame(self.msg_id[node], bytes(msg)))
+            quiescent = nq.settle(max_virtual_time=60.0)
         self.msg_id[node] += 1
-        quiescent = nq.settle(max_virtual_time=60.0)
+        self.max_insns = max([self.max_insns] + list(self.insns.values()))
+        aborted = None
+        if guard.fired:
+            # the exception may have been turned into a failed Deferred by twisted on its way out: the flag decides
+            self.dead = True
+            aborted = {"guard": "wall", "seconds": self.wall_limit, "insns": self.insns[node]}
+        elif self.limit_hit:
+            aborted = {"guard": "insn", "insns": self.limit_hit.get(node, self.insns[node]), "nodes": sorted(self.limit_hit)}
+        if aborted:
+            for n in self.names:        # the harness interfered: nothing from here on is the model's business
+                self.offmodel[n] = True
+        if self.dead:
+            rec = self.rec[node]
+            self.untied[node] += 1
+            return {"node": node, "kind": kind, "app": app, "replies": [], "ops": list(rec["ops"]),
+                    "outs": list(rec["outs"]), "sends": list(rec["sends"]), "infos": list(rec["infos"]), "state": None,
+                    "refused": list(rec["refused"]), "reg_hits": dict(self.reg_hits), "quiescent": False, "errors": [],
+                    "halt": "aborted", "prog": prog, "body": body, "note": note, "insns": self.insns[node],
+                    "aborted": aborted, "line": None, "want": None}
         data = t.value()
         replies = parse_replies(data[self.seen[node]:])
         self.seen[node] = len(data)
@@ -499,7 +613,8 @@ class Runner:
         out = {"node": node, "kind": kind, "app": app, "replies": replies, "ops": list(rec["ops"]),
                "outs": list(rec["outs"]), "sends": list(rec["sends"]), "infos": list(rec["infos"]), "state": st,
                "refused": list(rec["refused"]), "reg_hits": dict(self.reg_hits),
-               "quiescent": quiescent, "errors": errors, "halt": halt, "prog": prog, "body": body, "note": note}
+               "quiescent": quiescent, "errors": errors, "halt": halt, "prog": prog, "body": body, "note": note,
+               "insns": self.insns[node], "aborted": aborted}
         want = "%s | %s | %s | %s" % (halt, _or_dash([show_reply(r) for r in replies]),
                                       _or_dash([show_op(o) for o in rec["ops"]]), st)
         desc = {"node": node, "kind": kind, "app": app}
@@ -569,6 +684,10 @@ class RefError(Exception):
     """the instruction is an error in NetQASM (undefined register, address not allocated, ...)"""
 
 
+class OutOfFuel(RuntimeError):
+    """`RefApp.run` executed `fuel` instructions and the program has not ended"""
+
+
 class Reference:
     """one ideal register: a state vector over the live tokens (tensor order = `tokens`)"""
 
@@ -631,6 +750,8 @@ class RefApp:
     def __init__(self, ref, maxq, free_cap, free_regs=None):
         self.ref, self.maxq, self.free_cap, self.free_regs = ref, maxq, free_cap, free_regs
         self.regs, self.arrays, self.qmap = {}, {}, {}
+        self.executed = 0         # instructions the last `run` executed (the failing one included)
+        self.starved = False      # the last `run` ended because it needed an outcome that was not reported
 
     def _r(self, r):
         v = self.regs.get(_reg(r))
@@ -655,15 +776,19 @@ class RefApp:
         """-> (replies, ops, error?, index of the failing instruction or None); consumes `outs` (list, in place)"""
         replies, ops, pc = [], [], 0
         ref = self.ref
+        self.executed, self.starved = 0, False
+        self.op_pc = []           # per entry of `ops`: index of the instruction that produced it
 
         def outcome():
             if not outs:
+                self.starved = True
                 raise RefError("no reported outcome left")
             return outs.pop(0)
         while pc < len(instrs):
             fuel -= 1
             if fuel < 0:
-                raise RuntimeError("reference interpreter out of fuel")
+                raise OutOfFuel("reference interpreter out of fuel")
+            self.executed += 1
             i = instrs[pc]
             m = i.mnemonic
             nxt = pc + 1
@@ -766,6 +891,8 @@ class RefApp:
                     raise RuntimeError("reference interpreter: instruction %s not covered" % m)
             except RefError:
                 return replies + ["err", "done"], ops, True, pc
+            while len(self.op_pc) < len(ops):
+                self.op_pc.append(pc)
             pc = nxt
         return replies + ["done"], ops, False, None
 
@@ -781,6 +908,78 @@ class RefApp:
             ops.append(("meas", t, False, int(o)))
         self.qmap = {}
         return ops
+
+
+def shrink_insn_limit(runner):
+    """instruction limit for the candidates of a shrinking run, from the execution of the case being shrunk
+    (`runner.max_ref_insns`: what the reference needed; else what the real executor needed if it was not stopped):
+    deleting lines does not make the reference's run much longer, and a candidate that needs 50 times as many
+    instructions is not a smaller witness"""
+    base = runner.max_ref_insns or (runner.max_insns if runner.max_insns < (runner.insn_limit or 0) else 0)
+    return min(INSN_LIMIT, max(SHRINK_INSN_FLOOR, 50 * base))
+
+
+def first_divergence(got_ops, want_ops):
+    """index of the first token-level operation at which the observed trace leaves the reference trace
+    (None: equal)"""
+    for j, (a, b) in enumerate(zip(got_ops, want_ops)):
+        if a != b:
+            return j
+    return None if len(got_ops) == len(want_ops) else min(len(got_ops), len(want_ops))
+
+
+def judge_abort(refapp, rec, max_shown=24):
+    """Verdict for a message whose real execution was stopped by a guard of `Runner.send` (rec["aborted"]).
+    The reference interpreter gets the same program and the outcomes reported so far, and as much fuel as the
+    real executor had used:
+      * it ends (or reaches a measurement nobody reported) after M instructions, NONTERM_MARGIN * M <= N
+          -> (NONTERM_KEY, what): real and reference count the same thing, so the real executor left the
+             reference semantics; `what` names the first token-level operation where the traces part;
+      * a reported outcome has probability 0 -> ("impossible-outcome", what);
+      * it is still running as well -> raises ProgramDiverges (the program does not terminate; no verdict).
+    Consumes the reference state (the case ends here)."""
+    ab = rec["aborted"]
+    n = ab["insns"]
+    wall = ab["guard"] == "wall"
+    how = ("is still running after %d instructions" % n if not wall else
+           "is still busy after %.0f s of wall-clock time (%d instructions started)" % (ab["seconds"], n))
+    if rec["prog"] is None or refapp is None:
+        return NONTERM_KEY, "%s: the real code %s" % (rec["kind"], how)
+    outs = list(rec["outs"])
+    try:
+        _replies, want_ops, _err, _at = refapp.run(rec["prog"], outs, fuel=max(n, INSN_LIMIT if wall else 1))
+    except OutOfFuel:
+        raise ProgramDiverges("the reference interpreter is still running after %d instructions as well" % max(n, 1))
+    except Impossible as e:
+        return "impossible-outcome", str(e)
+    m = refapp.executed
+    if _err and not refapp.starved and rec["prog"][_at].mnemonic in ("bez", "bnz", "beq", "bne"):
+        # netqasm (third-party) compares the None of an undefined register with ==/!= and jumps or falls through
+        # instead of raising; never generated (only shrinking candidates that lost the defining instruction)
+        raise ProgramDiverges("the reference refuses `%s` (undefined register); netqasm's branch does not: outside "
+                              "the generated programs" % render_instr(rec["prog"][_at]))
+    if wall and refapp.starved and m * NONTERM_MARGIN > n:
+        if n >= 1000:
+            raise ProgramDiverges("wall-clock abort after %d instructions; the reference got as far (%d)" % (n, m))
+        return "hang", "the real executor %s; the reference is at instruction #%d by then" % (how, m)
+    if not wall and m * NONTERM_MARGIN > n:
+        raise ProgramDiverges("the real executor ran %d instructions, the reference %d with the outcomes reported: "
+                              "not apart by a factor %d" % (n, m, NONTERM_MARGIN))
+    got = [show_op(o) for o in rec["ops"]]
+    want = [show_op(o) for o in want_ops]
+    j = first_divergence(got[:len(want)] if refapp.starved else got, want)
+    if j is None:
+        where = "the operation traces agree as far as the reference goes (%d operations)" % len(want)
+    else:
+        at = refapp.op_pc[j] if j < len(refapp.op_pc) else None
+        where = "the operation traces part at operation #%d (real %s, reference %s%s)" % (
+            j, got[j] if j < len(got) else "nothing", want[j] if j < len(want) else "nothing",
+            "" if at is None else " by instruction %d `%s`" % (at, render_instr(rec["prog"][at])))
+    ref_end = ("needs a measurement that was never reported after %d instructions" % m if refapp.starved
+               else "finished after %d" % m)
+    shown = bits(rec["outs"][:max_shown]) + ("..." if len(rec["outs"]) > max_shown else "")
+    return NONTERM_KEY, ("the real executor %s; the reference %s; outcomes so far (%d) %s; %s; subroutine: %s" % (
+        how, ref_end, len(rec["outs"]), shown, where, render_prog(rec["prog"])))
 
 
 def node_generators(runner, node):
